@@ -2,6 +2,7 @@ package main
 
 import (
 	"fmt"
+	"os"
 	"go/token"
 	"go/types"
 	"sort"
@@ -90,6 +91,35 @@ func (ex *Exec) define(hint string, t T) T {
 
 // havocAll forgets every heap (opaque call).
 func (ex *Exec) havocAll(st *State, why string) {
+	// cells of this function's own variables that only its directly called/deferred closures can reach keep their value:
+	// no callee holds their address
+	type kept struct {
+		loc LocDeref
+		val T
+	}
+	var cells []kept
+	for _, b := range ex.fn.Blocks {
+		for _, in := range b.Instrs {
+			a, ok := in.(*ssa.Alloc)
+			if !ok || ex.isLocalCell(a) {
+				continue
+			}
+			r, ok := ex.regs[a]
+			if os.Getenv("GOVC_DEBUG_CELLS") != "" {
+				fmt.Fprintf(os.Stderr, "cell %s %s executed=%v private=%v\n", a.Name(), a.Comment, ok, closurePrivate(a))
+			}
+			if !ok || !closurePrivate(a) {
+				continue
+			}
+			l := LocDeref{r, a.Type().(*types.Pointer).Elem()}
+			cells = append(cells, kept{l, ex.load(st, l)})
+		}
+	}
+	defer func() {
+		for _, c := range cells {
+			ex.vc.assume(st.guard, Eq(ex.load(st, c.loc), c.val))
+		}
+	}()
 	keep := map[string]T{}
 	for h := range ex.P.immutHeaps {
 		if srt, ok := ex.heapR.sorts[h]; ok {
@@ -428,4 +458,62 @@ func (ex *Exec) recordWrite(st *State, heap string, ref T) {
 	if ex.onWrite != nil {
 		ex.onWrite(st, heap, ref)
 	}
+}
+
+// closurePrivate: the address of the variable is used only for direct loads and stores in its function and in anonymous
+// functions that capture it and are themselves only called or deferred on the spot (never stored, passed or started as a
+// goroutine), so no other code can write the cell.
+func closurePrivate(a *ssa.Alloc) bool {
+	var addrOnly func(v ssa.Value, depth int) bool
+	addrOnly = func(v ssa.Value, depth int) bool {
+		refs := v.Referrers()
+		if refs == nil || depth > 3 {
+			return false
+		}
+		for _, r := range *refs {
+			switch r := r.(type) {
+			case *ssa.DebugRef:
+			case *ssa.UnOp:
+				if r.Op != token.MUL {
+					return false
+				}
+			case *ssa.Store:
+				if r.Addr != v || r.Val == v {
+					return false
+				}
+			case *ssa.MakeClosure:
+				fn, ok := r.Fn.(*ssa.Function)
+				if !ok {
+					return false
+				}
+				// the closure value itself: only in callee position of a call or defer
+				if crefs := r.Referrers(); crefs != nil {
+					for _, cr := range *crefs {
+						switch cr := cr.(type) {
+						case *ssa.DebugRef:
+						case *ssa.Defer:
+							if cr.Call.Value != ssa.Value(r) {
+								return false
+							}
+						case *ssa.Call:
+							if cr.Call.Value != ssa.Value(r) {
+								return false
+							}
+						default:
+							return false
+						}
+					}
+				}
+				for i, b := range r.Bindings {
+					if b == v && !addrOnly(fn.FreeVars[i], depth+1) {
+						return false
+					}
+				}
+			default:
+				return false
+			}
+		}
+		return true
+	}
+	return addrOnly(a, 0)
 }
